@@ -110,6 +110,9 @@ static inline int path_is_simple(const char *path)
 
 static inline const char *path_last_node(const char *path)
 {
+    if (*path == '\0')
+        return path;
+
     const char *it = path + strlen(path);
 
     do
